@@ -1,6 +1,7 @@
 """C02 -- the collector never reclaims or corrupts reachable data: result independent of the
 collection schedule and of the initial heap size."""
 import copy
+import re
 import json
 import os
 import threading
@@ -197,8 +198,13 @@ def resolve(case, nalloc):
     return c
 
 
+_ELAPSED = re.compile(r"in [0-9][0-9.e+-]* seconds")
+
+
 def transcript(res):
-    return [(s["out"], s["res"], s["exc"]) for s in res.get("steps", [])]
+    # the test framework prints elapsed (simulated) time, which follows the tick count; that count legitimately depends on where
+    # objects were allocated (identity-hash bucket chains), hence on the collection schedule
+    return [(_ELAPSED.sub("in T seconds", s["out"]), s["res"], s["exc"]) for s in res.get("steps", [])]
 
 
 def execute(case, run):
